@@ -176,11 +176,12 @@ func C01(e *core.Env) int {
 	rep.Floor = tierN(e, 30, 300)
 	cases := append(c01Corpus(e), pinnedC01()...)
 	cases = append(cases, otherCorpora(e, tierN(e, 25, 300))...)
-	p, err := runPipelineOpts(e, "c01", cases, pipeOpts{Execute: true, Asserts: true})
+	p, err := runPipelineOpts(e, "c01", cases, pipeOpts{Execute: true, Asserts: true, Cover: true})
 	if err != nil {
 		rep.Inconclusive = append(rep.Inconclusive, err.Error())
 		return rep.Finish()
 	}
+	rep.Extra["goverter_statement_coverage_reached_by_this_corpus"] = p.Coverage
 	for _, cr := range p.Mod.Cases {
 		rep.Evaluations++
 		c := cr.Case
